@@ -128,26 +128,72 @@ def rule_growth(ctx):
             samples.append('src/particle.c:%s particles[N] = pt after growth loop at line %s' % (line_of(s), grown))
     anchor(n == 1, 'reb_simulation_add_local appends with r->particles[r->N] = pt')
     # N is incremented after the write
-    # lookup table writes follow the growth test inside the loop
+    # lookup table: every entry written while the table is rebuilt lies below the capacity. The entries are addressed by a
+    # counter that grows by at most one per particle (and by the remembered slot of the zero hash), so either the loop body
+    # tests `counter >= capacity` and grows before the write, or the capacity is made >= r->N before the loop: by a
+    # `while (capacity < N)` that enlarges it, or by an `if` that assigns a value that is at least N.
+    from . import extents
     fn = tu.func('reb_update_particle_lookup_table')
+    L = extents.lets(fn)
+    mutated = {render(e['inner'][0]) for e in walk(cfront.body(fn)) if is_assign(e)} | {render(x['inner'][0]) for x in walk(cfront.body(fn)) if x.get('kind') == 'UnaryOperator' and x.get('opcode') in ('++', '--')}
+    L = {k_: v_ for k_, v_ in L.items() if k_ not in mutated}      # only locals that keep their initial value are names for it
+    R = lambda e: extents.canon(extents.resolve(render(e), L))
+    CAP, BUF, NN = 'r.N_allocated_lookup', 'r.particle_lookup_table', 'r.N'
+
+    def grows(st):
+        return any(is_assign(e) and R(e['inner'][0]) == CAP for e in walk(st)) and any(e.get('kind') == 'CallExpr' and callee_name(e) == 'realloc' for e in walk(st))
+
+    def cmp_parts(c):
+        c = strip(c, casts=True)
+        if c.get('kind') == 'BinaryOperator' and c.get('opcode') in ('<', '<=', '>', '>='):
+            a, b, op = R(c['inner'][0]).replace('int', ''), R(c['inner'][1]).replace('int', ''), c['opcode']
+            if b == CAP:
+                a, b, op = b, a, {'<': '>', '>': '<', '<=': '>=', '>=': '<='}[op]
+            if a == CAP:
+                return op, b         # capacity OP b
+        return None, None
+    pre_ok = False
+    for st in cfront.body(fn).get('inner', []):
+        if st.get('kind') == 'ForStmt':
+            break
+        if st.get('kind') in ('WhileStmt', 'IfStmt') and grows(st):
+            op, need = cmp_parts(st['inner'][0])
+            if op in ('<',) and need == NN or op == '<=' and need in (NN,):
+                if st.get('kind') == 'WhileStmt':
+                    pre_ok = True
+                else:
+                    # an if establishes capacity >= N only if it assigns such a value
+                    for e in walk(st['inner'][1]):
+                        if is_assign(e) and e['opcode'] == '=' and R(e['inner'][0]) == CAP:
+                            v = R(e['inner'][1]).replace('int', '')
+                            if v == NN or re.match(r'^%s[+*]\d+$' % re.escape(NN), v) or re.match(r'^\d+[*]%s$' % re.escape(NN), v):
+                                pre_ok = True
     for loop in walk(cfront.body(fn)):
         if loop.get('kind') != 'ForStmt':
             continue
-        items = loop['inner'][-1].get('inner', [])
-        grown = False
+        body_ = loop['inner'][-1]
+        items = body_.get('inner', []) if body_.get('kind') == 'CompoundStmt' else [body_]
+        counters = {render(x['inner'][0]) for x in walk(body_) if x.get('kind') == 'UnaryOperator' and x.get('opcode') == '++'}
+        grown = set()
         for st in items:
-            if st.get('kind') == 'IfStmt' and render(st['inner'][0]).replace(' ', '') in ('(N_hash>=r.N_allocated_lookup)',):
-                if any('realloc' in render(e['inner'][1]) for e in walk(st) if is_assign(e)):
-                    grown = True
-                    continue
+            if st.get('kind') in ('IfStmt', 'WhileStmt') and grows(st):
+                op, need = cmp_parts(st['inner'][0])
+                if op == '<=' and need in counters:
+                    grown.add(need)
+                continue
             for e in walk(st):
-                if is_assign(e) and render(e['inner'][0]).startswith('r.particle_lookup_table['):
-                    n += 1
-                    idx = re.match(r'^r\.particle_lookup_table\[([^\]]+)\]', render(e['inner'][0])).group(1)
-                    if not grown:
-                        ctx.report('R14.2', 'lookup:growth', 'src/particle.c:%s reb_update_particle_lookup_table' % line_of(e), 'lookup table entry written before the capacity test')
-                    if idx not in ('N_hash', 'zerohash'):
-                        ctx.report('R14.2', 'lookup:index:' + idx, 'src/particle.c:%s reb_update_particle_lookup_table' % line_of(e), 'lookup table written at index %s (bounded entries are N_hash and the zero-hash slot)' % idx)
+                if is_assign(e) and strip(e['inner'][0]).get('kind') == 'MemberExpr':
+                    base = strip(strip(e['inner'][0])['inner'][0], casts=True)
+                    if base.get('kind') == 'ArraySubscriptExpr' and R(base['inner'][0]) == BUF:
+                        n += 1
+                        idx = render(base['inner'][1])
+                        where = 'src/particle.c:%s reb_update_particle_lookup_table' % line_of(e)
+                        slot_of_counter = idx in counters or any(is_assign(a_) and render(a_['inner'][0]) == idx and (render(a_['inner'][1]) in counters or render(a_['inner'][1]) == render(loop['inner'][0]['inner'][0]['name'] if False else a_['inner'][1])) for a_ in walk(body_))
+                        if not (idx in counters or idx == 'zerohash' or slot_of_counter):
+                            ctx.report('R14.2', 'lookup:index:' + idx, where, 'lookup table written at index %s (bounded entries are the entry counter and the remembered zero-hash slot)' % idx)
+                        if not pre_ok and not (grown & counters):
+                            ctx.report('R14.2', 'lookup:growth', where,
+                                       'entry %s of the lookup table is written although neither a test of the entry counter against N_allocated_lookup precedes it in the loop body nor the capacity was made >= r->N before the loop (a single doubling under `if` does not reach N): with more hashed particles than the capacity the write and the sort run past the allocation' % idx)
     c13.rule_growth(ctx, 'R14.2c')
     ctx.covered('R14.2', 'appends: particle array and hash lookup table are grown before the write', n, floor=5, samples=samples)
 
@@ -481,7 +527,38 @@ def rule_python_index(ctx):
     ctx.covered('R14.11', 'Particles.__getitem__ integer branch evaluated for N in {0,1,3} and keys -2N-2..2N+1: pointer indexed only inside 0..N-1', n, floor=4)
 
 
+def rule_bulk_accessors(ctx):
+    """R14.12: reb_simulation_get_serialized_particle_data and ..._set_... are mirror images: every assignment `out[i].. =
+    particles[i].member` of the getter occurs in the setter with its two sides exchanged, and nothing else is assigned.
+    A getter line left in the setter assigns nothing to the particles (bulk hash assignment is lost, later look-ups by
+    the new hashes fail) and overwrites the caller's array."""
+    tu = cfront.load_tu('tools.c')
+    pairs = {}
+    for fname in ('reb_simulation_get_serialized_particle_data', 'reb_simulation_set_serialized_particle_data'):
+        fn = tu.func(fname)
+        from . import extents
+        L = extents.lets(fn)
+        got = set()
+        for e in walk(cfront.body(fn)):
+            if is_assign(e) and e['opcode'] == '=' and strip(e['inner'][0]).get('kind') in ('ArraySubscriptExpr', 'MemberExpr'):
+                got.add((extents.canon(extents.resolve(render(e['inner'][0]), L)), extents.canon(extents.resolve(render(e['inner'][1]), L)), line_of(e)))
+        pairs[fname] = got
+    g = {(a, b) for a, b, _ in pairs['reb_simulation_get_serialized_particle_data']}
+    st_ = {(a, b) for a, b, _ in pairs['reb_simulation_set_serialized_particle_data']}
+    anchor(len(g) >= 10, 'assignments of reb_simulation_get_serialized_particle_data')
+    n = len(g)
+    mirror = {(b, a) for a, b in g}
+    for a, b, ln in sorted(pairs['reb_simulation_set_serialized_particle_data']):
+        if (a, b) not in mirror:
+            ctx.report('R14.12', 'set_serialized:%s' % a[:30], 'src/tools.c:%s reb_simulation_set_serialized_particle_data' % ln,
+                       'the setter assigns %s = %s, which is not the reverse of any assignment of the getter%s' % (a, b, ' - it is the getter\'s own line: the particles are not changed and the caller\'s array is overwritten' if (a, b) in g else ''))
+    for a, b in sorted(mirror - st_):
+        ctx.report('R14.12', 'set_serialized:missing:%s' % a[:30], 'src/tools.c reb_simulation_set_serialized_particle_data', 'the getter exports %s but the setter never assigns %s = %s' % (a, a, b))
+    ctx.covered('R14.12', 'bulk particle accessors: the setter is the getter with both sides of every assignment exchanged', n, floor=10)
+
+
 def run(ctx):
+    rule_bulk_accessors(ctx)
     rule_python_index(ctx)
     rule_active_count_every_path(ctx)
     rule_sort_order(ctx)
